@@ -1,8 +1,108 @@
-From Coq Require Import NArith List.
+(* C18 — a subscriber can only source traffic from its bound address.
+   Statements only; proofs are in Proofs/TcAntispoofProofs.v.  Subject: Model/TcAntispoof.v (bpf/antispoof.c
+   antispoof_ingress as coded, after the loose-mode fix d9f017c) and Model/AntispoofMgr.v
+   (pkg/antispoof/manager.go); the executable property monitor is Model/TcAntispoofSpec.v.
+   Vocabulary: [eff_mode m mac] = the binding's mode if [mac] has a binding, else the configured default;
+   [v4_frame f mac src] / [v6_frame f mac src] = f carries a complete Ethernet + IPv4 / IPv6 header, source MAC
+   mac, source address src; bindings are RAW map values (bytes 0..3 IPv4 in network order, 4..19 IPv6,
+   20/21 valid flags, 22 mode). *)
+From Coq Require Import NArith List Lia.
 From Verif Require Import Base.Word Model.TcQos Model.TcAntispoof Model.AntispoofMgr Model.TcAntispoofSpec Proofs.TcAntispoofProofs.
 Import ListNotations.
 Local Open Scope N_scope.
 
+(* ---- on raw bindings: all maps, all frames *)
+Theorem C18_strict_iff_equal_v4 : forall m f mac src,
+  v4_frame f mac src -> eff_mode m mac = MODE_STRICT ->
+  (forwards m f <-> exists b, binding_of m mac = Some b /\ nthb b 20 <> 0 /\ src = firstn 4 b).
+Proof. exact strict_iff_equal_v4. Qed.
+Print Assumptions C18_strict_iff_equal_v4.
+
+Theorem C18_strict_iff_equal_v6 : forall m f mac src,
+  v6_frame f mac src -> eff_mode m mac = MODE_STRICT ->
+  (forwards m f <-> exists b, binding_of m mac = Some b /\ nthb b 21 <> 0 /\ src = firstn 16 (skipn 4 b)).
+Proof. exact strict_iff_equal_v6. Qed.
+Print Assumptions C18_strict_iff_equal_v6.
+
+(* log-only and disabled: every frame (any length, any ethertype, any content) is forwarded *)
+Theorem C18_log_only_and_disabled_always_forward : forall m f mo, (mo = MODE_LOG_ONLY \/ mo = MODE_DISABLED) ->
+  (forall mac, rd f 6 6 = Some mac -> eff_mode m mac = mo) -> forwards m f.
+Proof. exact mode_forwards_all. Qed.
+Print Assumptions C18_log_only_and_disabled_always_forward.
+
+Theorem C18_non_ip_forwards : forall m f proto,
+  rd f 12 2 = Some proto -> proto <> [8; 0] -> proto <> [134; 221] -> forwards m f.
+Proof. exact non_ip_forwards. Qed.
+Print Assumptions C18_non_ip_forwards.
+
 Theorem C18_short_frame_forwards : forall m f, (length f < 14)%nat -> antispoof_prog m f = (ARet TC_ACT_OK, []).
 Proof. exact short_frame_forwards. Qed.
 Print Assumptions C18_short_frame_forwards.
+
+Theorem C18_truncated_ipv4_forwards : forall m f, (length f < 34)%nat -> rd f 12 2 = Some [8; 0] -> forwards m f.
+Proof. exact truncated_ip_forwards. Qed.
+Print Assumptions C18_truncated_ipv4_forwards.
+
+Theorem C18_never_reads_outside_the_frame : forall m f, verdict_of m f <> AOob.
+Proof. exact never_oob. Qed.
+Print Assumptions C18_never_reads_outside_the_frame.
+
+(* loose, IPv4: FULL after the fix (before it: refuted for every bound subscriber) *)
+Theorem C18_loose_v4_iff_in_range : forall m f mac src,
+  v4_frame f mac src -> eff_mode m mac = MODE_LOOSE -> (forwards m f <-> in_ranges (a_ranges m) src = true).
+Proof. exact loose_v4_iff_in_range. Qed.
+Print Assumptions C18_loose_v4_iff_in_range.
+
+Theorem C18_in_ranges_meaning : forall rs ip, in_ranges rs ip = true <->
+  exists plen d, In (plen, d) rs /\ plen <= 32 /\ bits_match (N.to_nat plen) d ip = true.
+Proof. exact in_ranges_spec. Qed.
+Print Assumptions C18_in_ranges_meaning.
+
+(* loose, IPv6: there is no IPv6 range map, so no IPv6 source lies in an allowed range; the program forwards
+   every unbound IPv6 sender — REFUTED; under the guard "bound and different" it drops *)
+Theorem C18_loose_v6_refuted : ~ loose_v6_statement.
+Proof. exact loose_v6_refuted. Qed.
+Print Assumptions C18_loose_v6_refuted.
+
+Theorem C18_loose_v6_partial : forall m f mac src b,
+  v6_frame f mac src -> eff_mode m mac = MODE_LOOSE ->
+  binding_of m mac = Some b -> nthb b 21 <> 0 -> src <> firstn 16 (skipn 4 b) -> drops m f.
+Proof. exact loose_v6_partial. Qed.
+Print Assumptions C18_loose_v6_partial.
+
+(* ---- through the manager *)
+Theorem C18_binding_takes_effect_refuted : ~ binding_takes_effect_statement.
+Proof. exact binding_takes_effect_refuted. Qed.
+Print Assumptions C18_binding_takes_effect_refuted.
+
+Theorem C18_binding_admits_mirror_image :
+  forwards (maps (after init [AddBinding mac1 [10;20;30;40]])) (v4_test_frame [40;30;20;10]).
+Proof. exact binding_admits_mirror_image. Qed.
+Print Assumptions C18_binding_admits_mirror_image.
+
+(* guard: palindromic address (decidable: palin4) — from ANY prior manager state *)
+Theorem C18_binding_takes_effect_partial : forall s mac ip f src,
+  length mac = 6%nat -> length ip = 4%nat -> palin4 ip = true -> mgr_mode s = MODE_STRICT -> v4_frame f mac src ->
+  (forwards (maps (after s [AddBinding mac ip])) f <-> src = ip).
+Proof. exact binding_takes_effect_partial. Qed.
+Print Assumptions C18_binding_takes_effect_partial.
+
+Theorem C18_v6_binding_survives_refuted : ~ v6_binding_survives_statement.
+Proof. exact v6_binding_survives_refuted. Qed.
+Print Assumptions C18_v6_binding_survives_refuted.
+
+(* guard: the IPv6 binding is added after the IPv4 one *)
+Theorem C18_v6_binding_survives_partial : forall s mac ip4 ip6 f,
+  length mac = 6%nat -> length ip4 = 4%nat -> length ip6 = 16%nat -> mgr_mode s = MODE_STRICT -> v6_frame f mac ip6 ->
+  forwards (maps (after s [AddBinding mac ip4; AddBindingV6 mac ip6])) f.
+Proof. exact v6_binding_survives_partial. Qed.
+Print Assumptions C18_v6_binding_survives_partial.
+
+(* non-vacuity: the hypotheses are satisfiable by concrete frames and states *)
+Example C18_frames_exist :
+  v4_frame (v4_test_frame [10;1;1;10]) mac1 [10;1;1;10] /\ palin4 [10;1;1;10] = true /\
+  v6_frame v6_test_frame [2;0;0;0;0;1] ip6_1 /\
+  eff_mode (maps (after init [AddBinding mac1 [10;1;1;10]])) mac1 = MODE_STRICT /\
+  forwards (maps (after init [AddBinding mac1 [10;1;1;10]])) (v4_test_frame [10;1;1;10]) /\
+  drops (maps (after init [AddBinding mac1 [10;1;1;10]])) (v4_test_frame [10;1;1;11]).
+Proof. repeat split; try reflexivity; cbn; lia. Qed.
